@@ -33,12 +33,22 @@ func (c varCase) cliArgs(dir string, r varRunOpts) []string {
 	anno := writeFile(dir, "anno."+c.Format, c.annoText())
 	var args []string
 	if c.Form == "msa" {
-		args = []string{"variants", "--msa", writeFile(dir, "aln.fasta", c.Msa.render()), "-a", anno, "-t", strconv.Itoa(c.Threads)}
+		args = []string{"variants", "--msa", writeFile(dir, "aln.fasta", c.Msa.render()), "-t", strconv.Itoa(c.Threads)}
+		if c.Format == "gb" && c.Threads%2 == 0 {
+			args = append(args, "--genbank", anno) // legacy spelling of -a for GenBank files
+		} else {
+			args = append(args, "-a", anno)
+		}
 		if c.Msa.RefID != "" {
 			args = append(args, "--reference", c.Msa.RefID)
 		}
 	} else {
-		args = []string{"sam", "variants", "-s", writeFile(dir, "in.sam", c.Sam.render()), "-a", anno, "-t", strconv.Itoa(c.Threads)}
+		args = []string{"sam", "variants", "-s", writeFile(dir, "in.sam", c.Sam.render()), "-t", strconv.Itoa(c.Threads)}
+		if c.Format == "gb" && c.Threads%2 == 0 {
+			args = append(args, "--genbank", anno) // legacy spelling of -a for GenBank files
+		} else {
+			args = append(args, "-a", anno)
+		}
 		if c.RefFromFile {
 			args = append(args, "-r", writeFile(dir, "ref.fasta", c.Sam.refFasta()))
 		}
